@@ -144,6 +144,16 @@ Theorem C16_flush_ops : forall P ops,
 Proof. exact C16_flush_ops_proof. Qed.
 Print Assumptions C16_flush_ops.
 
+(* Observation O1 (the code as it is; a clean failure, no clause of C16 is broken): handleSingleBatch refuses every Flush batch while
+   no primary is chosen, so a non-empty generation flushed before any lock-writing mutation exists (only CheckNotExists
+   mutations) fails whatever the store would answer; nothing reaches the store, and the failure latch of
+   C16_keepalive_and_latch / C16_flush_error_fails_txn then fails every later flush and the commit. *)
+Theorem C16_generation_without_primary_fails : forall s0 o g fb,
+  inflight s0 = true -> primary s0 = [] -> flushing s0 = Some (g, fb) -> fb <> [] ->
+  closed (complete s0 o) = true /\ pending (complete s0 o) = Some false /\ store (complete s0 o) = store s0.
+Proof. exact C16_generation_without_primary_fails_proof. Qed.
+Print Assumptions C16_generation_without_primary_fails.
+
 (* Regression witnesses for the formula before a4a602e ([pipelinedStart, pipelinedEnd) with the largest key exclusive). *)
 
 Theorem C16_resolve_covers_prefix_refuted :
@@ -233,4 +243,9 @@ Example flush_ops_nonvacuous :
   let s := run P0 (ops ++ [OComplete true; OFlushWait true]) in
   fst (get s k1) = None /\ lookup k1 (rmap (rrun ops)) = Some [] /\ lookup k1 (store s) = None /\
   fst (get s [107; 50]) = Some v1.
+Proof. vm_compute. repeat split. Qed.
+
+Example generation_without_primary_nonvacuous :
+  let s := run P0 [OInsert k1 v1; ODel k1; OFlush true 0 true; OComplete true] in
+  closed s = true /\ primary s = [] /\ store s = [] /\ snd (commit_attempt P0 (run_from P0 s [OSet k5 v1]) true true) = false.
 Proof. vm_compute. repeat split. Qed.
